@@ -164,7 +164,8 @@ fn hist<T: CellT + std::hash::Hash>(seed: u64, histories: usize, steps: usize, m
                 match op {
                     "insert_row" | "push_row" | "insert_col" | "push_col" => {
                         let site = if op.ends_with("row") { "next" } else { "next_back" };
-                        match rng.below(6) {
+                        match rng.below(7) {
+                            6 => Some((json!({"kind": "panic_at", "site": "iter_drop", "k": 0, "lie": "none"}), LenMode::True)),
                             0 => Some((json!({"kind": "panic_at", "site": "len", "k": rng.below(2), "lie": "none"}), LenMode::True)),
                             1 => Some((json!({"kind": "lie", "site": "none", "k": 0, "lie": "minus1"}), LenMode::Minus1)),
                             2 => Some((json!({"kind": "lie", "site": "none", "k": 0, "lie": "plus1"}), LenMode::Plus1)),
